@@ -49,6 +49,7 @@ pub fn exec(op: &str, a: &Value) -> Option<Value> {
     Some(match op {
         "PlainDate.with" => run(|| { let mut p = partial_date(&a["p"])?;
             // a receiver in a calendar with eras: era and eraYear supplied next to the record's other fields
+            match js::opt_s(a, "half") { Some("era") => { p = p.with_era(Some("ce".parse().expect("HARNESS: era code"))); } Some(_) => { p = p.with_era_year(Some(5)); } None => {} }
             if let Some(e) = js::opt_s(a, "era") { p = p.with_era(Some(e.parse().expect("HARNESS: era code"))).with_era_year(Some(js::i(a, "eraYear") as i32)); }
             arg_date(&a["recv"])?.with(p, arg_ovf(a)) }, p_date),
         "PlainDate.from_partial" => run(|| PlainDate::from_partial(partial_date(&a["p"])?, arg_ovf(a)), p_date),
